@@ -93,7 +93,7 @@ func normalizeProgram(p0 *Program) (*Program, []string) {
 			}
 			next[name] = applySrcEdits(src, es)
 		}
-		np, err := LoadProgram(p0.Dir, "", next)
+		np, err := cur.withOverlay(next)
 		if err != nil && normDebug {
 			os.MkdirAll("/tmp/normfail", 0o755)
 			for name, b := range next {
